@@ -272,6 +272,24 @@ class Run:
                             'corrupted_copies_rejected': len(corrupted), 'tlc_states': stats['distinct'],
                             'wall_s': stats['wall_s']})
 
+    def apalache(self, module, obligations, timeout=600):
+        """spec-level proof obligations discharged by Apalache (inductive invariant): each is (init, inv, length)"""
+        import subprocess
+        out_dir = tlc.scratch('apalache')
+        done = 0
+        for (init, inv, length) in obligations:
+            cmd = ['apalache-mc', 'check', '--init=' + init, '--inv=' + inv, '--length=%d' % length, '--out-dir=' + out_dir,
+                   module + '.tla']
+            p = subprocess.run(cmd, cwd=tlc.SPEC, stdout=subprocess.PIPE, stderr=subprocess.STDOUT, text=True, timeout=timeout)
+            if 'EXITCODE: OK' not in p.stdout:
+                raise tlc.MachineryError('Apalache did not discharge %s / %s / length %d of %s:\n%s'
+                                         % (init, inv, length, module, p.stdout[-1500:]))
+            done += 1
+        self.extra['obligations'] = self.extra.get('obligations', 0) + len(obligations)
+        self.extra['discharged'] = self.extra.get('discharged', 0) + done
+        self.extra['checker_cmd'] = 'apalache-mc check --init=<init> --inv=<inv> --length=<n> spec/%s.tla' % module
+        self.phases.append({'phase': 'apalache', 'module': module, 'obligations': [list(o) for o in obligations], 'discharged': done})
+
     def absorb(self, tot):
         self.cases += tot['cases']
         self.steps += tot['steps']
